@@ -75,6 +75,8 @@ HEAP_PROGS = [
     ("a tuple holding one binary twice sent to a process", "#{ a = [0xaa, 0xbb] __binary_concat__, p = @#{ !#['bin, 'bin] }, [a, a] p, !p }", "[0xaabb, 0xaabb]"),
     ("scratch binaries dropped by calls", "#{ f = #'int { =n [0x01, 0x02] __binary_concat__ =scratch, n }, [1 f, 2 f, 3 f] }", "[1, 2, 3]"),
     ("a higher-priority filter's message arrives while a lower-priority filter holds a binary message (D9; either arrival order yields 7)", "#{ loop = #'int { | =0 => 0 | [~, 1] __integer_subtract__ ^ }, p = @#{ x = ! [#'int { =n => Ok }, #'bin { =b => 600000 loop, Ok }], y = ! [#'bin, 500], z = ! [#'int, 500], 7 }, m1 = [0xaa, 0xbb] __binary_concat__, m1 p, 100000 loop, 5 p, !p }", "7"),
+    ("a closure bound to a name is spawned, then the name goes out of scope (the spawn must give back what loading the closure retained)", "#{ g = #{ b = [0xaa, 0xbb] __binary_concat__, f = #{ b }, p = @f, !p }, x = g, y = [0x01, 0x02] __binary_concat__, [x, y] }", "[0xaabb, 0x0102]"),
+    ("the same bound closure spawned twice", "#{ b = [0xaa, 0xbb] __binary_concat__, f = #{ b }, p = @f, q = @f, [!p, !q] }", "[0xaabb, 0xaabb]"),
     ("result awaited twice", "#{ q = @#{ 1 }, p = @#{ [0xaa, 0xbb] __binary_concat__ }, x = !p, y = !p, [x, y] }", "[0xaabb, 0xaabb]"),
     ("consequence-less branch yielding a heap binary, then dropped", "#{ { | [0x01, 0x02] __binary_concat__ | 0x03 }, 1 }", "1"),
     ("binary pinned against itself", "#{ a = [0xaa, 0xbb] __binary_concat__, x = a =&a, [x, a] }", "[Ok, 0xaabb]"),
